@@ -158,6 +158,87 @@ fn transact_op(db: &mut RefDB, c: &OpCase) -> Result<ResultAndState, EVMError<St
     evm.transact()
 }
 
+fn op_env(c: &OpCase, t: &OpTx) -> Box<revm::primitives::Env> {
+    let mut env = make_env(c.spec, &c.block, &t.tx);
+    env.tx.optimism.source_hash = if t.deposit { Some(B256::with_last_byte(7)) } else { None };
+    env.tx.optimism.mint = t.mint;
+    env.tx.optimism.is_system_transaction = t.system;
+    env.tx.optimism.enveloped_tx = Some(Bytes::copy_from_slice(&t.enveloped));
+    env
+}
+
+/// Two transactions (different enveloped bytes, so different L1 costs) on ONE Optimism Evm versus a
+/// fresh Evm per transaction over an identically evolving database: the second transaction must not
+/// see anything the first one cached (L1 block info, per-transaction L1 cost).
+fn check_reuse(c: &OpCase, second: &OpTx, rep: &mut Report) {
+    rep.eval();
+    rep.count("two_transaction_sequences_on_one_evm");
+    let cj = || json!({"case": c.to_json(), "second": {"tx": second.tx.to_json(), "deposit": second.deposit, "mint": second.mint.map(|m| m.to_string()), "system": second.system, "enveloped": hex(&second.enveloped)}, "mode": "one Evm for both transactions vs a fresh Evm each"});
+    let r = guarded(|| {
+        // reused
+        let mut db_a = RefDB::new(c.world.clone(), c.spec);
+        let (a1, a2) = {
+            let mut evm = Evm::builder().with_db(&mut db_a).with_spec_id(c.spec).with_env(op_env(c, &c.tx)).optimism().build();
+            let a1 = evm.transact();
+            if let Ok(rs) = &a1 {
+                use revm::DatabaseCommit;
+                evm.context.evm.db.commit(rs.state.clone());
+            }
+            evm.context.evm.env = op_env(c, second);
+            let a2 = evm.transact();
+            (a1, a2)
+        };
+        // fresh
+        let mut db_b = RefDB::new(c.world.clone(), c.spec);
+        let b1 = Evm::builder().with_db(&mut db_b).with_spec_id(c.spec).with_env(op_env(c, &c.tx)).optimism().build().transact();
+        if let Ok(rs) = &b1 {
+            use revm::DatabaseCommit;
+            db_b.commit(rs.state.clone());
+        }
+        let b2 = Evm::builder().with_db(&mut db_b).with_spec_id(c.spec).with_env(op_env(c, second)).optimism().build().transact();
+        (a1.is_ok() == b1.is_ok(), a2, b2, db_a.world.clone(), db_b.world.clone())
+    });
+    let (first_same, a2, b2, wa, wb) = match r {
+        Err(p) => {
+            report_panic(rep, "C33", &p, cj());
+            return;
+        }
+        Ok(x) => x,
+    };
+    if !first_same || world_diff(&wa, &wb).is_some() {
+        rep.inconclusive("C33 reuse harness: the first transaction differed between the twins".to_string());
+        return;
+    }
+    let fork = op_name(c.spec);
+    match (a2, b2) {
+        (Ok(x), Ok(y)) => {
+            if x.result != y.result {
+                rep.violation(format!("C33/reused-evm/second-transaction-result-differs/{fork}"), format!("reused {:?} vs fresh {:?}", outcome_of::<String>(&Ok(x.result.clone())).to_json().to_string(), outcome_of::<String>(&Ok(y.result.clone())).to_json().to_string()), cj());
+                return;
+            }
+            let (mut wx, mut wy) = (wa.clone(), wb.clone());
+            let mut cx = std::collections::BTreeMap::new();
+            let mut cy = std::collections::BTreeMap::new();
+            apply_evm_state(&mut wx, &mut cx, &x.state, c.spec);
+            apply_evm_state(&mut wy, &mut cy, &y.state, c.spec);
+            if let Some(d) = world_diff(&wy, &wx) {
+                let who = [(L1_FEE_RECIPIENT, "l1-fee-vault"), (BASE_FEE_RECIPIENT, "base-fee-vault"), (OPERATOR_FEE_RECIPIENT, "operator-fee-vault"), (second.tx.caller, "sender")].iter().find(|(a, _)| wx.accounts.get(a).map(|q| q.balance) != wy.accounts.get(a).map(|q| q.balance)).map(|(_, n)| *n).unwrap_or("other");
+                rep.violation(format!("C33/reused-evm/second-transaction-state-differs/{who}/{fork}"), format!("fresh vs reused after the second transaction: {d}"), cj());
+                return;
+            }
+            rep.count("second_transactions_equal_on_reused_evm");
+        }
+        (Err(x), Err(y)) => {
+            if format!("{x:?}") != format!("{y:?}") {
+                rep.violation(format!("C33/reused-evm/second-transaction-error-differs/{fork}"), format!("reused {x:?} vs fresh {y:?}"), cj());
+            }
+        }
+        (x, y) => {
+            rep.violation(format!("C33/reused-evm/second-transaction-verdict-differs/{fork}"), format!("reused ok={} fresh ok={}", x.is_ok(), y.is_ok()), cj());
+        }
+    }
+}
+
 fn gen_case(rng: &mut Rng) -> OpCase {
     let spec = *rng.pick(&OP_SPECS);
     let mut f = Features::swarm(rng, spec);
@@ -395,13 +476,20 @@ pub fn run(ctx: &Ctx) -> i32 {
         for k in 0..(n / nsh as u64).max(1) {
             let c = gen_case(rng);
             check_case(&c, rep);
+            if k % 4 == 0 {
+                // a second transaction of another generated case on the same world
+                let mut second = gen_case(rng).tx;
+                second.tx.nonce = None;
+                second.tx.caller = c.tx.tx.caller;
+                check_reuse(&c, &second, rep);
+            }
             if rep.samples.len() < 2 && k == 3 {
                 rep.sample(json!({"spec": op_name(c.spec), "deposit": c.tx.deposit, "mint": c.tx.mint.map(|m| m.to_string()), "enveloped_len": c.tx.enveloped.len(), "tx": c.tx.tx.to_json()}));
             }
         }
     });
     rep.merge(r);
-    for (k, need) in [("regular_transactions_checked", 2000u64), ("deposits_checked", 1000), ("failed_deposits_checked", 50), ("l1_costs_compared_with_definition", 500)] {
+    for (k, need) in [("regular_transactions_checked", 2000u64), ("deposits_checked", 1000), ("failed_deposits_checked", 50), ("l1_costs_compared_with_definition", 500), ("second_transactions_equal_on_reused_evm", 500)] {
         let have = rep.counter(k);
         rep.floor(k, have, need);
     }
@@ -411,7 +499,7 @@ pub fn run(ctx: &Ctx) -> i32 {
     }
     finish(ctx, rep, Finish {
         level: "exploration",
-        rule: "Generated worlds (W without SELFDESTRUCT and without programs naming fee parties) with an L1 block contract whose slots carry generated fee parameters (zero and realistic values of base fee, overhead, scalar, blob base fee, the packed Ecotone scalars, the Isthmus operator scalar/constant); one transaction per case under Bedrock..Isthmus with the Optimism handler: regular (with generated enveloped bytes, incl. empty and 0x7f-prefixed), deposits (mint none/0/small/2^96-ish, system flag, gas limits below the intrinsic cost, missing nonce), pre-Regolith system flags. Regular: sum of all balances before == after; base-fee vault += basefee*gas_used; coinbase += tip*gas_used; L1 vault += calculate_tx_l1_cost(enveloped) and, for Bedrock/Regolith/Canyon/Ecotone, == the fork's formula evaluated independently in BigUint; operator vault += gas_used*scalar/1e6 + constant (Isthmus); sender debit == value moved + gas_used*price + L1 cost + operator fee. Deposits: sum after == sum before + mint; nonce + 1; a failed deposit's state names only the sender with balance + mint; no vault is paid. Non-trivial = an executed transaction; distinct by case.".into(),
+        rule: "Generated worlds (W without SELFDESTRUCT and without programs naming fee parties) with an L1 block contract whose slots carry generated fee parameters (zero and realistic values of base fee, overhead, scalar, blob base fee, the packed Ecotone scalars, the Isthmus operator scalar/constant); one transaction per case under Bedrock..Isthmus with the Optimism handler: regular (with generated enveloped bytes, incl. empty and 0x7f-prefixed), deposits (mint none/0/small/2^96-ish, system flag, gas limits below the intrinsic cost, missing nonce), pre-Regolith system flags. Regular: sum of all balances before == after; base-fee vault += basefee*gas_used; coinbase += tip*gas_used; L1 vault += calculate_tx_l1_cost(enveloped) and, for Bedrock/Regolith/Canyon/Ecotone, == the fork's formula evaluated independently in BigUint; operator vault += gas_used*scalar/1e6 + constant (Isthmus); sender debit == value moved + gas_used*price + L1 cost + operator fee. Deposits: sum after == sum before + mint; nonce + 1; a failed deposit's state names only the sender with balance + mint; no vault is paid. Every fourth case continues with a second generated transaction (other enveloped bytes, so another L1 cost) on the SAME Evm and, as a twin, on a fresh Evm over the same database: result and state of the second transaction must be equal. Non-trivial = an executed transaction; distinct by case.".into(),
         assumptions: vec!["Fjord+ L1 cost (FastLZ size estimate) has no independent definition here: the amount paid is compared with the public cost function only".into(), "deposits carry gas price 0 (as the protocol builds them)".into()],
     })
 }
